@@ -30,7 +30,10 @@ PROOFS = ["proofs/RaceProofs.v", "proofs/RaceHBProofs.v", "lib/Race.v", "lib/Rac
           "models/RaceAtomics.v", "proofs/RaceAtomicsProofs.v",
           "models/RaceMutex.v", "proofs/RaceMutexProofs.v",
           # taskx.Queue (TaskQueue.v tq_gstep, the machine C09 replays) labelled: producers, consumer, closer, Get2 waiters
-          "models/RaceTaskQueue.v", "proofs/RaceTaskQueueStruct.v", "proofs/RaceTaskQueueProofs.v"]
+          "models/RaceTaskQueue.v", "proofs/RaceTaskQueueStruct.v", "proofs/RaceTaskQueueProofs.v",
+          # the ants step model (AntsSteps.v, the machine C07's dispatch-steps stream steps against the pool) labelled
+          "models/RaceAnts.v", "proofs/AntsStepsProofs.v", "proofs/RaceAntsInv.v", "proofs/RaceAntsCases.v",
+          "proofs/RaceAntsProofs.v"]
 
 
 def coq_table():
